@@ -11,13 +11,14 @@ import (
 	"time"
 
 	"github.com/gofiber/fiber/v3/client"
+	"github.com/gofiber/fiber/v3/verifrt/vtime"
 	"github.com/valyala/fasthttp"
 
 	"verifmc/core"
 )
 
 type jop struct {
-	Kind    string // set | resp | get | dump | rerelease | intruder
+	Kind    string // set | resp | respmulti | setkv | setkvbytes | get | getrel | dump | rerelease | intruder | tick
 	Host    string
 	Path    string // cookie path (set/resp) or request path (get/dump/resp request path in ReqPath)
 	Key     string
@@ -33,12 +34,27 @@ func (o jop) String() string {
 		return fmt.Sprintf("resp(%s%s Set-Cookie %s path=%s %s)", o.Host, o.ReqPath, o.Key, o.Path, o.Exp)
 	case "get", "dump":
 		return fmt.Sprintf("%s(%s%s)", o.Kind, o.Host, o.Path)
+	case "getrel":
+		return fmt.Sprintf("get(%s%s)+release-returned-cookies+next-pool-user-fills-them", o.Host, o.Path)
+	case "respmulti":
+		return fmt.Sprintf("resp(%s%s Set-Cookie k1 path=/ future, Set-Cookie k2 path=/x future, Set-Cookie k1 path=/ future)", o.Host, o.ReqPath)
+	case "setkv":
+		return fmt.Sprintf("SetKeyValue(%s %s)", o.Host, o.Key)
+	case "setkvbytes":
+		return fmt.Sprintf("SetKeyValueBytes(%s %s)", o.Host, o.Key)
+	case "tick":
+		return "clock+1h"
 	}
 	return o.Kind
 }
 
 var past = time.Date(2000, 1, 1, 0, 0, 0, 0, time.UTC)
 var future = time.Date(2100, 1, 1, 0, 0, 0, 0, time.UTC)
+
+// the jar reads the clock through the overlay (client/cookiejar.go: time -> vtime): every history starts at jarT0, the
+// op "tick" moves the clock one hour on, cookies with expiry "soon" expire half an hour after jarT0
+var jarT0 = time.Date(2050, 1, 1, 0, 0, 0, 0, time.UTC)
+var soon = jarT0.Add(30 * time.Minute)
 
 func jarAlphabet(full bool) []jop {
 	var ops []jop
@@ -67,9 +83,36 @@ func jarAlphabet(full bool) []jop {
 	ops = append(ops, jop{Kind: "dump", Host: "a.test", Path: "/x/y"}, jop{Kind: "dump", Host: "b.test", Path: "/"})
 	ops = append(ops, jop{Kind: "rerelease"}, jop{Kind: "intruder"})
 	if full {
-		ops = append(ops, jop{Kind: "set", Host: "a.test", Key: "k2", Path: "/x", Exp: "unlimited"}, jop{Kind: "get", Host: "b.test", Path: "/"})
+		ops = append(ops, jarExtension()...)
 	}
 	return ops
+}
+
+// jarExtension: the letters added by the clause-coverage audit - entry points, response shapes, ways a server expires
+// a cookie, time passing, and a caller that releases what Get returned (documented as safe).
+func jarExtension() []jop {
+	return []jop{
+		{Kind: "resp", Host: "a.test:8080", ReqPath: "/x", Key: "k1", Path: "/", Exp: "future"}, // response from a host with a port
+		{Kind: "resp", Host: "a.test", ReqPath: "/x", Key: "k1", Path: "/", Exp: "maxage0"},     // deletion through Max-Age=0
+		{Kind: "resp", Host: "a.test", ReqPath: "/x", Key: "k1", Path: "", Exp: "unlimited"},    // Set-Cookie without a path attribute
+		{Kind: "respmulti", Host: "a.test", ReqPath: "/x"},                                      // several Set-Cookie lines, one key twice
+		{Kind: "setkv", Host: "a.test", Key: "k1"},
+		{Kind: "setkvbytes", Host: "b.test:8080", Key: "k1"},
+		{Kind: "getrel", Host: "a.test", Path: "/x"},
+		{Kind: "set", Host: "a.test", Key: "k2", Path: "/", Exp: "soon"},
+		{Kind: "resp", Host: "a.test", ReqPath: "/x", Key: "k1", Path: "/", Exp: "soon"},
+		{Kind: "resp", Host: "a.test", ReqPath: "/x", Key: "k1", Path: "/", Exp: "maxage1800"}, // lifetime through Max-Age: over after the tick
+		{Kind: "tick"},
+	}
+}
+
+func isJarExtension(o jop) bool {
+	for _, x := range jarExtension() {
+		if x == o {
+			return true
+		}
+	}
+	return false
 }
 
 // jarRT answers every request with the configured Set-Cookie lines and records the Cookie header it saw.
@@ -94,7 +137,9 @@ var jarFH = &fasthttp.Client{Transport: jarTransport}
 type mcookie struct {
 	Host, Key, Path, Value string
 	Expired                bool
-	Ambiguous              bool // another cookie of the same host+key with a different path was stored: identity rules unspecified
+	Soon                   bool   // expires half an hour after the start of the history
+	By                     string // how it was expired ("" = Expires in the past, "max-age-0")
+	Ambiguous              bool   // another cookie of the same host+key with a different path was stored: identity rules unspecified
 }
 
 func hostOnly(h string) string {
@@ -114,6 +159,10 @@ func strictPathMatch(cookiePath, reqPath string) bool {
 	return len(reqPath) == len(cookiePath) || strings.HasSuffix(cookiePath, "/") || reqPath[len(cookiePath)] == '/'
 }
 
+// jarSigSuffix qualifies signatures of the judged run of one history (set by enumerateJar): violations that only
+// occur because the caller released the cookies Get returned are told apart from those the history shows anyway.
+var jarSigSuffix = map[string]string{}
+
 type jstep struct {
 	Op  string
 	Got []string
@@ -127,21 +176,92 @@ func runJarHistory(ops []jop, l *core.Local, judge bool) (sigs []string) {
 	var held []*fasthttp.Cookie // intruder's cookies stay alive
 	n := 0
 	var trace []jstep
-	store := func(host, key, path, value string, expired bool) {
+	vtime.SetClock(jarT0)
+	defer vtime.ClearClock()
+	ticked := false
+	// exp: "unlimited" | "future" | "past" | "soon" | "maxage0" | "maxage1800"
+	store := func(host, key, path, value, exp string) {
 		h := hostOnly(host)
+		// a lifetime given through Max-Age counts from the moment the response is received
+		expired, soonExp, by := exp == "past" || exp == "maxage0" || exp == "soon" && ticked, exp == "soon" || exp == "maxage1800", ""
+		switch exp {
+		case "maxage0":
+			by = "max-age-0"
+		case "maxage1800":
+			by = "max-age-elapsed"
+			if ticked {
+				soonExp = false // received after the tick: alive for the rest of the history
+			}
+		}
 		for _, m := range model {
 			if m.Host == h && m.Key == key && normPath(m.Path) == normPath(path) {
-				m.Value, m.Expired = value, expired
+				m.Value, m.Expired, m.Soon, m.By = value, expired, soonExp, by
 				return
 			}
 		}
 		// identity of a cookie is (host, key, path): cookies of one key with different paths coexist
-		model = append(model, &mcookie{Host: h, Key: key, Path: path, Value: value, Expired: expired})
+		model = append(model, &mcookie{Host: h, Key: key, Path: path, Value: value, Expired: expired, Soon: soonExp, By: by})
+	}
+	setCookieLine := func(key, v, path, exp string) string {
+		sc := key + "=" + v
+		if path != "" {
+			sc += "; path=" + path
+		}
+		switch exp {
+		case "past":
+			sc += "; expires=Sat, 01 Jan 2000 00:00:00 GMT"
+		case "future":
+			sc += "; expires=Fri, 01 Jan 2100 00:00:00 GMT"
+		case "soon":
+			sc += "; expires=Sat, 01 Jan 2050 00:30:00 GMT"
+		case "maxage0":
+			sc += "; Max-Age=0"
+		case "maxage1800":
+			sc += "; Max-Age=1800"
+		}
+		return sc
+	}
+	respond := func(host, reqPath string, lines []string) {
+		jarTransport.setCookie = lines
+		resp, err := cl.R().Get("http://" + host + reqPath)
+		jarTransport.setCookie = nil
+		if err == nil {
+			resp.Close()
+		}
+	}
+	jarGet := func(op jop, st *jstep, release bool) [][3]string {
+		uri := fasthttp.AcquireURI()
+		_ = uri.Parse(nil, []byte("http://"+op.Host+op.Path))
+		var got [][3]string
+		cs := jar.Get(uri)
+		for _, c := range cs {
+			got = append(got, [3]string{string(c.Key()), string(c.Value()), string(c.Path())})
+			st.Got = append(st.Got, string(c.Key())+"="+string(c.Value())+";path="+string(c.Path()))
+		}
+		if release {
+			// "The CookieJar keeps its own copies of cookies, so it is safe to release the returned cookies after use."
+			// Release + the next user of fasthttp's cookie pool acquiring and filling the object, played without going
+			// through the pool (ReleaseCookie = Reset + Put; the pool is LIFO): the process-wide pool stays untouched,
+			// so nothing of this history can reach a later one.
+			for _, c := range cs {
+				c.Reset()
+				c.SetKey("intruder")
+				c.SetValue("secret")
+				c.SetPath("/")
+			}
+		}
+		fasthttp.ReleaseURI(uri)
+		return got
 	}
 	viol := func(i int, sig, what string, got any) {
 		sigs = append(sigs, sig)
 		if !judge {
 			return
+		}
+		if jarSigSuffix[sig] != "" {
+			// one root cause (Get hands out the jar's own objects), many symptoms: one signature per lookup kind
+			kind, _, _ := strings.Cut(sig, "-")
+			sig, what = "lookup-wrong-after-caller-released-returned-cookies kind="+kind, "after the caller released the cookies a Get returned (documented as safe: the jar keeps its own copies) a later lookup loses a stored cookie or hands out an empty / foreign / duplicate one; the same history with plain lookups is correct"
 		}
 		var names []string
 		for _, o := range ops[:i+1] {
@@ -183,7 +303,7 @@ func runJarHistory(ops []jop, l *core.Local, judge bool) (sigs []string) {
 				continue
 			}
 			if match.Expired {
-				viol(i, kind+"-returned-expired-cookie", "the jar returned a cookie that is expired / was deleted by the server", g)
+				viol(i, kind+"-returned-expired-cookie"+expiredBy(match), "the jar returned a cookie that is expired / was deleted by the server", g)
 			}
 			if kind == "get" && !strings.HasPrefix(reqPath, match.Path) && match.Path != "" {
 				viol(i, kind+"-returned-non-matching-path", "the jar returned a cookie whose path is not a prefix of the request path", g)
@@ -230,39 +350,46 @@ func runJarHistory(ops []jop, l *core.Local, judge bool) (sigs []string) {
 				c.SetExpire(past)
 			case "future":
 				c.SetExpire(future)
+			case "soon":
+				c.SetExpire(soon)
 			}
 			uri := fasthttp.AcquireURI()
 			_ = uri.Parse(nil, []byte("http://"+op.Host+"/"))
 			jar.Set(uri, c)
 			fasthttp.ReleaseURI(uri)
 			fasthttp.ReleaseCookie(c)
-			store(op.Host, op.Key, op.Path, v, op.Exp == "past")
+			store(op.Host, op.Key, op.Path, v, op.Exp)
+		case "setkv", "setkvbytes":
+			n++
+			v := fmt.Sprintf("v%d", n)
+			if op.Kind == "setkv" {
+				jar.SetKeyValue(op.Host, op.Key, v)
+			} else {
+				jar.SetKeyValueBytes(op.Host, []byte(op.Key), []byte(v))
+			}
+			store(op.Host, op.Key, "", v, "unlimited")
 		case "resp":
 			n++
 			v := fmt.Sprintf("v%d", n)
-			sc := fmt.Sprintf("%s=%s; path=%s", op.Key, v, op.Path)
-			switch op.Exp {
-			case "past":
-				sc += "; expires=Sat, 01 Jan 2000 00:00:00 GMT"
-			case "future":
-				sc += "; expires=Fri, 01 Jan 2100 00:00:00 GMT"
+			respond(op.Host, op.ReqPath, []string{setCookieLine(op.Key, v, op.Path, op.Exp)})
+			store(op.Host, op.Key, op.Path, v, op.Exp)
+		case "respmulti":
+			n += 3
+			va, vb, vc := fmt.Sprintf("v%d", n-2), fmt.Sprintf("v%d", n-1), fmt.Sprintf("v%d", n)
+			respond(op.Host, op.ReqPath, []string{setCookieLine("k1", va, "/", "future"), setCookieLine("k2", vb, "/x", "future"), setCookieLine("k1", vc, "/", "future")})
+			store(op.Host, "k1", "/", va, "future")
+			store(op.Host, "k2", "/x", vb, "future")
+			store(op.Host, "k1", "/", vc, "future")
+		case "tick":
+			ticked = true
+			vtime.SetClock(jarT0.Add(time.Hour))
+			for _, m := range model {
+				if m.Soon {
+					m.Expired = true
+				}
 			}
-			jarTransport.setCookie = []string{sc}
-			resp, err := cl.R().Get("http://" + op.Host + op.ReqPath)
-			jarTransport.setCookie = nil
-			if err == nil {
-				resp.Close()
-			}
-			store(op.Host, op.Key, op.Path, v, op.Exp == "past")
-		case "get":
-			uri := fasthttp.AcquireURI()
-			_ = uri.Parse(nil, []byte("http://"+op.Host+op.Path))
-			var got [][3]string
-			for _, c := range jar.Get(uri) {
-				got = append(got, [3]string{string(c.Key()), string(c.Value()), string(c.Path())})
-				st.Got = append(st.Got, string(c.Key())+"="+string(c.Value())+";path="+string(c.Path()))
-			}
-			fasthttp.ReleaseURI(uri)
+		case "get", "getrel":
+			got := jarGet(op, &st, op.Kind == "getrel")
 			trace = append(trace, st)
 			check(i, "get", op.Host, op.Path, got)
 			l.Outcome(fmt.Sprintf("get returned %d", len(got)))
@@ -304,6 +431,18 @@ func runJarHistory(ops []jop, l *core.Local, judge bool) (sigs []string) {
 	return sigs
 }
 
+// expiredBy qualifies the signature of an expired cookie that was handed out: nothing for an Expires date in the past
+// at the time it was stored (the case the earlier rounds know), the way of expiry otherwise.
+func expiredBy(m *mcookie) string {
+	switch {
+	case m.By != "":
+		return " expired-by=" + m.By
+	case m.Soon:
+		return " expired-by=clock-passing-expires"
+	}
+	return ""
+}
+
 func normPath(p string) string {
 	if p == "" {
 		return "/"
@@ -329,7 +468,7 @@ func checkDump(i int, op jop, got [][3]string, model []*mcookie, viol func(int, 
 			if m.Host == h && m.Key == g[0] && m.Value == g[1] {
 				ok = true
 				if m.Expired {
-					viol(i, "dump-sent-expired-cookie", "an expired / server-deleted cookie was sent on the wire", g)
+					viol(i, "dump-sent-expired-cookie"+expiredBy(m), "an expired / server-deleted cookie was sent on the wire", g)
 				}
 				if !strings.HasPrefix(op.Path, m.Path) {
 					viol(i, "dump-sent-non-matching-path", "a cookie whose path is not a prefix of the request path was sent on the wire", g)
@@ -365,7 +504,9 @@ func checkDump(i int, op jop, got [][3]string, model []*mcookie, viol func(int, 
 	}
 }
 
-func enumerateJar(r *core.Run, depth int, alpha []jop) {
+// enumerateJar runs every history of the given depth over alpha that ends in a lookup (skip != nil: except those it
+// rejects).
+func enumerateJar(r *core.Run, depth int, alpha []jop, skip func([]jop) bool) {
 	debug.SetGCPercent(-1)
 	l := core.NewLocal()
 	n := len(alpha)
@@ -388,18 +529,49 @@ func enumerateJar(r *core.Run, depth int, alpha []jop) {
 			x /= n
 		}
 		_ = last
-		if k := ops[depth-1].Kind; k != "get" && k != "dump" {
+		if k := ops[depth-1].Kind; k != "get" && k != "dump" && k != "getrel" {
 			continue // histories are judged at get/dump steps; others are prefixes
+		}
+		if skip != nil && skip(ops) {
+			continue
 		}
 		sigs := runJarHistory(ops, l, false)
 		l.Add("jar_histories", 1)
 		l.Add("jar_transitions", int64(depth))
+		hasRel, hasExt := false, false
+		for _, o := range ops {
+			hasRel = hasRel || o.Kind == "getrel"
+			hasExt = hasExt || isJarExtension(o)
+		}
+		if hasExt {
+			l.Add("jar_histories_ext", 1)
+		}
+		clear(jarSigSuffix)
+		if len(sigs) > 0 && hasRel {
+			// the same history with plain lookups: what it shows too is not due to the release
+			plain := make([]jop, len(ops))
+			for i, o := range ops {
+				if o.Kind == "getrel" {
+					o.Kind = "get"
+				}
+				plain[i] = o
+			}
+			also := map[string]bool{}
+			for _, s := range runJarHistory(plain, l, false) {
+				also[s] = true
+			}
+			for _, s := range sigs {
+				if !also[s] {
+					jarSigSuffix[s] = " only-with=caller-releases-returned-cookies"
+				}
+			}
+		}
 		if len(sigs) > 0 {
 			// replay gate: the same history must fail the same way twice more, from flushed pools. The gate costs six
 			// collections; once a set of signatures has passed it gateQuota times in this worker, further histories that
 			// fail with exactly that set are judged directly (reported without the gate: never fewer reports).
 			sort.Strings(sigs)
-			set := strings.Join(sigs, "|")
+			set := strings.Join(sigs, "|") + fmt.Sprint(len(jarSigSuffix))
 			if gated[set] >= gateQuota {
 				l.Add("jar_judged_without_gate", 1)
 				runJarHistory(ops, l, true)
